@@ -3,6 +3,8 @@ import os
 import time
 
 SCRATCH = os.environ.get("VERIF_SCRATCH", "/tmp")
+if os.environ.get("VERIF_RAPP_FAIL_IMPORT"):
+    raise RuntimeError("this application cannot be imported")
 
 
 def _wait_gate(name, limit=30.0):
